@@ -601,6 +601,22 @@ type BadOuter struct {
 	BadP   *BadP
 }
 
+// BadQ: a well-formed has-many first, then a malformed relation: the failure is found after a
+// nested Parse(BadQKid) and a successful guessRelation
+type BadQ struct {
+	ID   int64
+	Name string
+	Val  int64
+	Oks  []BadQKid
+	Kids []BadK
+}
+type BadQKid struct {
+	ID     int64
+	Name   string
+	Val    int64
+	BadQID int64
+}
+
 type TypeDesc struct {
 	Idx      int
 	Name     string
@@ -727,6 +743,8 @@ func init() {
 		td[KyDoc]("keyed", false, hid(bt("KyOwner", "KyOwner", "KyOwnerID"))),
 		td[SjFirm]("serjoin", false),
 		td[SjDoc]("serjoin", false, bt("SjFirm", "SjFirm", "SjFirmID")),
+		td[BadQ]("bad", true, hm("Oks", "BadQKid", "BadQID"), badRel(hm("Kids", "BadK", ""))),
+		td[BadQKid]("bad", false),
 	}
 	Families = map[string][]int{}
 	for i, f := range defs {
